@@ -3,6 +3,7 @@
 // dependent templates skipped) it emits: metadata, the full statement/expression tree with
 // node ids, and the clang CFG (implicit destructors, initialisers, all sub-expressions)
 // whose elements reference tree node ids. Classes, enums, aliases and variables too.
+#include "clang/Lex/Lexer.h"
 #include "clang/AST/ASTConsumer.h"
 #include "clang/AST/ExprCXX.h"
 #include "clang/AST/RecursiveASTVisitor.h"
@@ -673,6 +674,25 @@ struct Emitter
         {
             o["k"]  = "bin";
             o["op"] = x->getOpcodeStr().str();
+            {
+                // source extents of the two operands (file offsets), for the robustness harness that swaps commutative operands
+                auto lb = x->getLHS()->getBeginLoc(), le = x->getLHS()->getEndLoc();
+                auto rb = x->getRHS()->getBeginLoc(), re = x->getRHS()->getEndLoc();
+                if (lb.isValid() && le.isValid() && rb.isValid() && re.isValid() && !lb.isMacroID() && !le.isMacroID() && !rb.isMacroID() && !re.isMacroID())
+                {
+                    auto le2 = Lexer::getLocForEndOfToken(le, 0, SM, C.getLangOpts());
+                    auto re2 = Lexer::getLocForEndOfToken(re, 0, SM, C.getLangOpts());
+                    if (le2.isValid() && re2.isValid() && SM.getFileID(lb) == SM.getFileID(re2))
+                    {
+                        Array sp;
+                        sp.push_back((int64_t)SM.getFileOffset(lb));
+                        sp.push_back((int64_t)SM.getFileOffset(le2));
+                        sp.push_back((int64_t)SM.getFileOffset(rb));
+                        sp.push_back((int64_t)SM.getFileOffset(re2));
+                        o["span"] = std::move(sp);
+                    }
+                }
+            }
             kids({x->getLHS(), x->getRHS()});
         }
         else if (auto* x = dyn_cast<ConditionalOperator>(s))
